@@ -2,7 +2,7 @@ def s(name, src, sig, **kw): d = {'name': name, 'src': src, 'sig': sig, 'inc': n
 UNIT = {
  'slices': [s('features_biases', 'colvardeps.h', r'enum features_biases'), s('features_colvar', 'colvardeps.h', r'enum features_colvar'),
   s('calc_colvars_head', 'colvarmodule.cpp', r'int colvarmodule::calc_colvars\(\)', until=r'\n  // if SMP support is available', until_close='return error_code;')],
- 'assumed': ['colvarmodule::calc_colvars is sliced up to the comment "if SMP support is available" (the evaluation of the variables is not under contract); biases and variables are stand-ins whose enable/disable(awake) are logged'],
+ 'assumed': ['colvarmodule::calc_colvars is sliced up to the comment "if SMP support is available" (the evaluation of the variables is not under contract); biases and variables are stand-ins with the awake/active semantics of colvardeps (awake requires active; an object is active from initialisation; disabling an enabled awake puts the object to sleep; disabling what is off does nothing); their enable/disable calls are logged'],
  'tasks': [
   {'id': 'calc_colvars_head', 'properties': ['C08'], 'slices': ['calc_colvars_head'], 'harness': 'h_calc_colvars_head', 'enforce': 'k_calc_colvars_head', 'replace': ['k_awake'], 'unwind': 20, 'unwind_body': 4,
    'solvers': ['kissat'], 'timeout': 600, 'bounded': 'one bias, two variables; time-step factors 1 or 3 (constant divisor)',
